@@ -3,9 +3,9 @@
    tables of Generated/SandboxTables.v, regenerated from the Go source on every run of the check.
 
    FULL statement (false of the current source, see Properties/C08Refuted.v and the known findings):
-     sandbox_tables_pure : forall c n k f, sandboxed c = true -> In (n,k,f) (bindings c) -> k <> KValue -> effect_of f = []
-     special_forms_pure  : forall n f, In (n,f) special_forms -> effect_of f = []
-     sandbox_no_effect   : forall c p, sandboxed c = true -> effects_of (run_abs c p) = []
+     sandbox_tables_pure : forall c n k f, sandboxed c = true -> In (n,k,f) (bindings c) -> k <> KValue -> effect_of c f = []
+     special_forms_pure  : forall c n f, sandboxed c = true -> In (n,f) special_forms -> effect_of c f = []
+     sandbox_no_effect   : forall c p, sandboxed c = true -> effects_of c (run_abs c p) = []
    Proved here: the same statements EXCEPT for the explicit lists known_leak_bindings / known_leak_specials
    (closed by vm_compute over the generated tables, so any NEW impure entry breaks the proof), and the full
    statement for every program that avoids the known leaks. *)
@@ -21,36 +21,36 @@ Print Assumptions capability_closed.
 
 (* ---- 2. purity of the generated tables, except the known leaks ---- *)
 Theorem sandbox_tables_pure_except : forall c n k f, sandboxed c = true ->
-  In (n, k, f) (bindings c) -> k <> KValue -> effect_of f <> [] -> In n (known_leak_bindings c).
+  In (n, k, f) (bindings c) -> k <> KValue -> effect_of c f <> [] -> In n (known_leak_bindings c).
 Proof. exact SandboxProofs.sandbox_tables_pure_except. Qed.
 Print Assumptions sandbox_tables_pure_except.
 
-Theorem special_forms_pure_except : forall n f,
-  In (n, f) special_forms -> effect_of f <> [] -> In n known_leak_specials.
+Theorem special_forms_pure_except : forall c n f, sandboxed c = true ->
+  In (n, f) special_forms -> effect_of c f <> [] -> In n known_leak_specials.
 Proof. exact SandboxProofs.special_forms_pure_except. Qed.
 Print Assumptions special_forms_pure_except.
 
-Theorem implicit_prims_pure : forall n k f, In (n, k, f) implicit_prims -> effect_of f = [].
+Theorem implicit_prims_pure : forall c n k f, sandboxed c = true -> In (n, k, f) implicit_prims -> effect_of c f = [].
 Proof. exact SandboxProofs.implicit_prims_pure. Qed.
 Print Assumptions implicit_prims_pure.
 
-Theorem vm_core_pure : forall f, In f vm_core -> effect_of f = [].
+Theorem vm_core_pure : forall c f, sandboxed c = true -> In f vm_core -> effect_of c f = [].
 Proof. exact SandboxProofs.vm_core_pure. Qed.
 Print Assumptions vm_core_pure.
 
 (* ---- 3. no program has an effect, except through a known leak ---- *)
 Theorem sandbox_no_effect_except : forall c p f, sandboxed c = true ->
-  In f (run_abs c p) -> effect_of f <> [] -> In f (leak_fns c).
+  In f (run_abs c p) -> effect_of c f <> [] -> In f (leak_fns c).
 Proof. exact SandboxProofs.sandbox_no_effect_except. Qed.
 Print Assumptions sandbox_no_effect_except.
 
 Theorem sandbox_no_effect_partial : forall c p, sandboxed c = true ->
-  (forall f, In f (leak_fns c) -> ~ In f (run_abs c p)) -> effects_of (run_abs c p) = [].
+  (forall f, In f (leak_fns c) -> ~ In f (run_abs c p)) -> effects_of c (run_abs c p) = [].
 Proof. exact SandboxProofs.sandbox_no_effect. Qed.
 Print Assumptions sandbox_no_effect_partial.
 
 Theorem sandbox_no_effect_when_pure : forall c p, sandboxed c = true ->
-  leak_fns c = [] -> effects_of (run_abs c p) = [].
+  leak_fns c = [] -> effects_of c (run_abs c p) = [].
 Proof. exact SandboxProofs.sandbox_no_effect_when_pure. Qed.
 Print Assumptions sandbox_no_effect_when_pure.
 
@@ -71,5 +71,5 @@ Proof. vm_compute. reflexivity. Qed.
 Example sandbox_plain_program_pure :
   predicted_effects Std (PSeq [PDef "g" (PRef "println"); PCall (PRef "map") [PRef "g"; PConst]; PMacro "req" [PConst]]) = [].
 Proof. vm_compute. reflexivity. Qed.
-Example unknown_function_is_not_pure : effect_of "NoSuchGoFunction" = [Eunknown].
+Example unknown_function_is_not_pure : effect_of Std "NoSuchGoFunction" = [Eunknown].
 Proof. vm_compute. reflexivity. Qed.
